@@ -1127,6 +1127,8 @@ UNMODELLED_RULES: List[Tuple[str, str]] = [
     (r"is not an argument of ``", "unmodelled:ctor-body"),
     (r"^Expected the arguments to super ``__init__`` to be passed with the same names", "unmodelled:ctor-body"),
     (r"does not define a ``__init__``", "unmodelled:ctor-body"),
+    (r"^The property .* is assigned more than once", "unmodelled:ctor-body"),
+    (r"is used as a type of one or more properties, but it has no concrete descendants", "unmodelled:abstract-without-descendants"),
     (r"^The constraint reference is dangling", "unmodelled:constraintref"),
     (r"its serialization setting ``with_model_type`` has not been set", "unmodelled:with-model-type"),
     (r"needs to have serialization setting ``with_model_type`` set", "unmodelled:with-model-type"),
